@@ -74,6 +74,122 @@ def expand_locals(expr: ast.AST, fn: ast.AST, depth: int = 4, _seen: Optional[Se
     return out
 
 
+def value_sources(py, fn: ast.AST, expr: ast.AST, depth: int = 4, _seen: Optional[Set[str]] = None) -> List[ast.AST]:
+    """The expressions a value can come from, with locals and *unused optional parameters* resolved: a local name is replaced
+    by what is assigned to it; a parameter that no call site of `fn` supplies is replaced by its default (dropped when the
+    default is None and the function re-binds the name - `if p is None: p = <default expression>`); a parameter that some
+    call site supplies stays as the bare name (its value is not known here)."""
+    seen = _seen if _seen is not None else set()
+    if not isinstance(expr, ast.Name) or depth <= 0 or expr.id in seen:
+        return [expr]
+    seen.add(expr.id)
+    vals = [v for _t, v in assignments(fn, expr.id) if v is not None]
+    vals += [n.value for n in ast.walk(fn) if isinstance(n, ast.NamedExpr) and n.target.id == expr.id]
+    out: List[ast.AST] = []
+    a = getattr(fn, "args", None)
+    params = [x.arg for x in (a.posonlyargs + a.args + a.kwonlyargs)] if a is not None else []
+    if expr.id in params:
+        pos = a.posonlyargs + a.args
+        dflt = dict(zip([x.arg for x in pos[len(pos) - len(a.defaults):]], a.defaults))
+        dflt.update({x.arg: d for x, d in zip(a.kwonlyargs, a.kw_defaults) if d is not None})
+        is_method = bool(pos) and pos[0].arg in ("self", "cls")
+        qn = py.qualname(fn)
+        callee = qn.split(".")[-2] if qn.endswith(".__init__") and "." in qn else fn.name
+        supplied = False
+        for _m, f2 in py.all_functions():
+            for c in ast.walk(f2):
+                if isinstance(c, ast.Call) and call_name(c).split(".")[-1] == callee:
+                    if any(isinstance(x, ast.Starred) for x in c.args) or any(k.arg is None for k in c.keywords):
+                        # **kwargs forwarding: supplied only if the caller itself can receive the name - not decidable here
+                        if any(k.arg == expr.id for k in c.keywords):
+                            supplied = True
+                        continue
+                    if bind_args(c, fn, skip_self=is_method).get(expr.id) is not None:
+                        supplied = True
+        d = dflt.get(expr.id)
+        if supplied or d is None:
+            out.append(expr)
+        elif not (isinstance(d, ast.Constant) and d.value is None and vals):
+            out.append(d)
+    elif not vals:
+        return [expr]
+    for v in vals:
+        out += value_sources(py, fn, v, depth - 1, seen)
+    return out
+
+
+def linear(e: ast.AST) -> Optional[Dict[str, int]]:
+    """an integer expression as a linear form {term text: coefficient, "": constant}; None if it is not linear"""
+    if isinstance(e, ast.Constant) and isinstance(e.value, int) and not isinstance(e.value, bool):
+        return {"": e.value}
+    if isinstance(e, ast.UnaryOp) and isinstance(e.op, ast.USub):
+        a = linear(e.operand)
+        return None if a is None else {k: -v for k, v in a.items()}
+    if isinstance(e, ast.BinOp) and isinstance(e.op, (ast.Add, ast.Sub)):
+        a, b = linear(e.left), linear(e.right)
+        if a is None or b is None:
+            return None
+        out = dict(a)
+        for k, v in b.items():
+            out[k] = out.get(k, 0) + (v if isinstance(e.op, ast.Add) else -v)
+        return {k: v for k, v in out.items() if v or k == ""}
+    if isinstance(e, ast.BinOp) and isinstance(e.op, ast.Mult):
+        a, b = linear(e.left), linear(e.right)
+        if a is None or b is None:
+            return None
+        for x, y in ((a, b), (b, a)):
+            if set(x) <= {""}:
+                c = x.get("", 0)
+                return {k: v * c for k, v in y.items() if v * c or k == ""}
+        return None
+    return {ast.unparse(e): 1}
+
+
+def str_length(e: ast.AST, subject: str) -> Optional[Dict[str, int]]:
+    """the length of a string expression built from constants, `s * n`, `a + b` and slices `subject[a:b]` of the string named
+    `subject` (slice bounds are taken to lie within the string, a <= b), as a linear form in which len(subject) is the term
+    "len(subject)"; None when the expression has another shape"""
+    L = f"len({subject})"
+
+    def norm(d):
+        return {k: v for k, v in d.items() if v or k == ""} if d is not None else None
+    if isinstance(e, ast.Constant) and isinstance(e.value, str):
+        return {"": len(e.value)}
+    if isinstance(e, ast.Name) and e.id == subject:
+        return {L: 1}
+    if isinstance(e, ast.BinOp) and isinstance(e.op, ast.Add):
+        a, b = str_length(e.left, subject), str_length(e.right, subject)
+        if a is None or b is None:
+            return None
+        out = dict(a)
+        for k, v in b.items():
+            out[k] = out.get(k, 0) + v
+        return norm(out)
+    if isinstance(e, ast.BinOp) and isinstance(e.op, ast.Mult):
+        for s_, n_ in ((e.left, e.right), (e.right, e.left)):
+            ls = str_length(s_, subject) if isinstance(s_, ast.Constant) and isinstance(s_.value, str) else None
+            if ls is not None:
+                n = linear(n_)
+                if n is None:
+                    return None
+                c = ls.get("", 0)
+                return norm({k: v * c for k, v in n.items()})
+        return None
+    if isinstance(e, ast.Subscript) and isinstance(e.value, ast.Name) and e.value.id == subject and isinstance(e.slice, ast.Slice) \
+            and e.slice.step is None:
+        lo = linear(e.slice.lower) if e.slice.lower is not None else {"": 0}
+        hi = linear(e.slice.upper) if e.slice.upper is not None else {L: 1}
+        if lo is None or hi is None:
+            return None
+        out = dict(hi)
+        for k, v in lo.items():
+            out[k] = out.get(k, 0) - v
+        return norm(out)
+    if isinstance(e, ast.Call) and isinstance(e.func, ast.Attribute) and e.func.attr in ("ljust", "rjust") and len(e.args) >= 1:
+        return None
+    return None
+
+
 def str_constants(exprs: Sequence[ast.AST]) -> List[str]:
     return [n.value for e in exprs for n in ast.walk(e) if isinstance(n, ast.Constant) and isinstance(n.value, str)]
 
